@@ -58,6 +58,7 @@ package collection
 //@ lockinv (m *SafeMap) lock: forall(k.(any), implies(smH[m][k], smV[m][k] == ite(inDom(m.dirtyOld, k), m.dirtyOld[k], m.dirtyNew[k])))
 //@ lockinv (m *SafeMap) lock: smN[m] == len(m.dirtyOld) + len(m.dirtyNew)
 //@ guarded_by deletionOld, deletionNew, dirtyOld, dirtyNew
+//@ owns dirtyOld, dirtyNew
 
 //@ func (m *SafeMap) Get
 //@   property C16
@@ -115,7 +116,7 @@ package collection
 //@   ensures  pe(tw, task.key) != nil && allocated(pe(tw, task.key)) && pe(tw, task.key).item == task && pe(tw, task.key).pos == pos
 //@   ensures  forall(k.(any), implies(k != task.key && smHas(tw.timers, k), pe(tw, k) == old(pe(tw, k))))
 //@   ensures  forall(q.(*positionEntry), implies(old(allocated(q)) && !(old(smHas(tw.timers, task.key)) && q == old(pe(tw, task.key))), q.item == old(q.item) && q.pos == old(q.pos)))
-//@   modifies smH[tw.timers], smV[tw.timers], positionEntry.item, positionEntry.pos
+//@   modifies smH[tw.timers], smV[tw.timers], smN[tw.timers], positionEntry.item, positionEntry.pos
 //@   allocates
 
 //@ func (tw *TimingWheel) removeTask
@@ -126,7 +127,7 @@ package collection
 //@   ensures  implies(old(smHas(tw.timers, key)), old(pe(tw, key)).item.removed)
 //@   ensures  forall(k.(any), implies(k != key, smHas(tw.timers, k) == old(smHas(tw.timers, k)) && pe(tw, k) == old(pe(tw, k))))
 //@   ensures  forall(x.(*timingEntry), implies(old(allocated(x)) && !(old(smHas(tw.timers, key)) && x == old(pe(tw, key)).item), x.removed == old(x.removed)))
-//@   modifies smH[tw.timers], smV[tw.timers], timingEntry.removed
+//@   modifies smH[tw.timers], smV[tw.timers], smN[tw.timers], timingEntry.removed
 //@   allocates
 
 //@ func (tw *TimingWheel) moveTask
@@ -144,7 +145,7 @@ package collection
 //@              x.removed == old(x.removed) && x.circle == old(x.circle) && x.diff == old(x.diff) && listOf[x] == old(listOf[x]) && x.value == old(x.value)))
 //@   ensures  forall(x.(*timingEntry), implies(old(allocated(x)), x.key == old(x.key) && x.delay == old(x.delay)))
 //@   ensures  forall(k.(any), implies(k != task.key && smHas(tw.timers, k), pe(tw, k) == old(pe(tw, k)) && pe(tw, k).item == old(pe(tw, k).item) && pe(tw, k).pos == old(pe(tw, k).pos)))
-//@   modifies smH[tw.timers], smV[tw.timers], positionEntry.item, positionEntry.pos,
+//@   modifies smH[tw.timers], smV[tw.timers], smN[tw.timers], positionEntry.item, positionEntry.pos,
 //@            timingEntry.removed, timingEntry.circle, timingEntry.diff, timingEntry.value, timingEntry.baseEntry, listOf
 //@   allocates
 
@@ -161,7 +162,7 @@ package collection
 //@   ensures  implies(old(smHas(tw.timers, task.key)) && pe(tw, task.key).item != old(pe(tw, task.key).item), old(pe(tw, task.key).item).removed)
 //@   ensures  forall(x.(*timingEntry), implies(old(allocated(x)) && x != task && !(old(smHas(tw.timers, task.key)) && x == old(pe(tw, task.key).item)),
 //@              x.removed == old(x.removed) && x.circle == old(x.circle) && x.diff == old(x.diff) && listOf[x] == old(listOf[x]) && x.value == old(x.value)))
-//@   modifies smH[tw.timers], smV[tw.timers], positionEntry.item, positionEntry.pos,
+//@   modifies smH[tw.timers], smV[tw.timers], smN[tw.timers], positionEntry.item, positionEntry.pos,
 //@            timingEntry.removed, timingEntry.circle, timingEntry.diff, timingEntry.value, timingEntry.baseEntry, listOf
 //@   allocates
 
@@ -195,13 +196,13 @@ package collection
 //@              listOf[x] == old(listOf[x]) && x.removed == old(x.removed) && x.circle == old(x.circle) && x.diff == old(x.diff)))
 //@   ensures  forall(x.(*timingEntry), implies(fired[x] && !old(fired[x]), old(listOf[x]) == l && !old(x.removed) && old(x.circle) <= 0 && old(x.diff) <= 0))
 //@   ensures  forall(x.(*timingEntry), implies(old(fired[x]), fired[x]))
-//@   modifies listOf, fired, timingEntry.circle, timingEntry.diff, positionEntry.item, positionEntry.pos, smH[tw.timers], smV[tw.timers]
+//@   modifies listOf, fired, timingEntry.circle, timingEntry.diff, positionEntry.item, positionEntry.pos, smH[tw.timers], smV[tw.timers], smN[tw.timers]
 //@   allocates
 //@   call append#0: assert arg1.key == task.key && arg1.value == task.value
 //@   ghost at after append#0: fired[task] = true
 //@   ghost at before PushBack#0: lemma modshift(tw.tickedPos, task.diff, tw.numSlots)
 //@   loop 0: listiter(e, l)
-//@   loop 0: modifies listOf, fired, timingEntry.circle, timingEntry.diff, positionEntry.item, positionEntry.pos, smH[tw.timers], smV[tw.timers]
+//@   loop 0: modifies listOf, fired, timingEntry.circle, timingEntry.diff, positionEntry.item, positionEntry.pos, smH[tw.timers], smV[tw.timers], smN[tw.timers]
 //@   loop 0: invariant wheelOK(tw) && timersOK(tw) && liveOK(tw) && itemsOK(tw)
 //@   loop 0: invariant forall(x.(*timingEntry), implies(old(listOf[x]) == l && !seen[x], listOf[x] == l && x.removed == old(x.removed) && x.circle == old(x.circle) && x.diff == old(x.diff)))
 //@   loop 0: invariant forall(x.(*timingEntry), implies(seen[x] || listOf[x] == l, old(listOf[x]) == l))
@@ -229,17 +230,17 @@ package collection
 //@   ensures  forall(x.(*timingEntry), implies(old(inWheel(tw, x)), drained(tw, x)))
 //@   ensures  forall(x.(*timingEntry), implies(!old(inWheel(tw, x)), drainCount[x] == old(drainCount[x])))
 //@   ensures  forall(k.(any), !smHas(tw.timers, k))
-//@   modifies listOf, drainCount, smH[tw.timers], smV[tw.timers]
+//@   modifies listOf, drainCount, smH[tw.timers], smV[tw.timers], smN[tw.timers]
 //@   allocates
 //@   ghost at before Schedule#0: drainCount[task] = drainCount[task] + 1
-//@   loop 0: modifies listOf, drainCount, smH[tw.timers], smV[tw.timers]
+//@   loop 0: modifies listOf, drainCount, smH[tw.timers], smV[tw.timers], smN[tw.timers]
 //@   loop 0: invariant wheelOK(tw)
 //@   loop 0: invariant forall(x.(*timingEntry), implies(old(inWheel(tw, x)) && slotIdx[old(listOf[x])] < idx, drained(tw, x)))
 //@   loop 0: invariant forall(x.(*timingEntry), implies(old(inWheel(tw, x)) && slotIdx[old(listOf[x])] >= idx, listOf[x] == old(listOf[x]) && drainCount[x] == old(drainCount[x])))
 //@   loop 0: invariant forall(x.(*timingEntry), implies(!old(inWheel(tw, x)), listOf[x] == old(listOf[x]) && drainCount[x] == old(drainCount[x])))
 //@   loop 0: invariant forall(k.(any), implies(smHas(tw.timers, k), old(smHas(tw.timers, k)) && pe(tw, k) == old(pe(tw, k))))
 //@   loop 1: listiter(e, slot)
-//@   loop 1: modifies listOf, drainCount, smH[tw.timers], smV[tw.timers]
+//@   loop 1: modifies listOf, drainCount, smH[tw.timers], smV[tw.timers], smN[tw.timers]
 //@   loop 1: invariant wheelOK(tw) && 0 <= slotIdx[slot] && slotIdx[slot] < tw.numSlots && tw.slots[slotIdx[slot]] == slot
 //@   loop 1: invariant forall(x.(*timingEntry), implies(old(inWheel(tw, x)) && slotIdx[old(listOf[x])] < slotIdx[slot], drained(tw, x)))
 //@   loop 1: invariant forall(x.(*timingEntry), implies(old(listOf[x]) == slot && seen[x], drained(tw, x)))
@@ -282,7 +283,7 @@ package collection
 //@   ensures  forall(x.(*timingEntry), implies(old(inWheel(tw, x)) && !old(x.removed) && old(listOf[x]) == tw.slots[tw.tickedPos] && old(x.circle) <= 0 && old(x.diff) <= 0,
 //@              old(rem(tw, x)) == 1))
 //@   ensures  forall(x.(*timingEntry), implies(fired[x] && !old(fired[x]), old(inWheel(tw, x)) && !old(x.removed) && old(rem(tw, x)) == 1))
-//@   modifies tw.tickedPos, listOf, fired, timingEntry.circle, timingEntry.diff, positionEntry.item, positionEntry.pos, smH[tw.timers], smV[tw.timers]
+//@   modifies tw.tickedPos, listOf, fired, timingEntry.circle, timingEntry.diff, positionEntry.item, positionEntry.pos, smH[tw.timers], smV[tw.timers], smN[tw.timers]
 //@   allocates
 //@   ghost at entry: lemma waitstep(tw.tickedPos, tw.numSlots)
 //@   ghost at before scanAndRunTasks#0: lemma modshiftAll(tw.tickedPos, tw.numSlots)
@@ -295,6 +296,17 @@ package collection
 //@   ensures fresh(result) && forall(k.(any), !smH[result][k]) && smN[result] == 0
 //@   allocates
 //@   modifies smH[result], smN[result]
+
+//@ func (m *SafeMap) Range
+//@   property C16
+//@   requires m != nil && f != nil
+//@   flag callbacks_noheap
+//@   call f#0: assert smH[m][k] && v == smV[m][k]
+//@   call f#1: assert smH[m][k] && v == smV[m][k]
+//@   loop 0: modifies calls(f)
+//@   loop 0: invariant true
+//@   loop 1: modifies calls(f)
+//@   loop 1: invariant true
 
 //@ func (m *SafeMap) Size
 //@   property C16
